@@ -221,6 +221,10 @@ class RF24:
             for i, val in enumerate(address):
                 self._pipes[0][i] = val  # type: ignore[assignment, index]
             self._reg_write_bytes(RX_ADDR_P0, address)
+            if not self._config & 1 and not self._open_pipes & 1:
+                # in TX mode, pipe 0 must be open to receive the ACK packets
+                self._open_pipes |= 1
+                self._reg_write(OPEN_PIPES, self._open_pipes)
         for i, val in enumerate(address):
             self._tx_address[i] = val
         self._reg_write_bytes(TX_ADDRESS, address)
